@@ -79,12 +79,32 @@ fn gen_lang(a: &HashMap<String, String>) {
             rich_scheme(false, true, true, &[("always", Ty::Int), ("never", Ty::Bytes)]),
         ],
     };
-    let mut ctxs = Vec::new();
+    let mut ctxs: Vec<CtxSpec> = Vec::new();
     let mut by_scheme: Vec<Vec<usize>> = vec![vec![]; specs.len()];
     for (si, s) in specs.iter().enumerate() {
         for _ in 0..nctx {
             ctxs.push(gen_ctx(&mut r, si + 1, s));
             by_scheme[si].push(ctxs.len());
+        }
+    }
+    if family == "c11" {
+        // values over the pattern alphabet, so that patterns hit
+        fn re_bytes(r: &mut rand::rngs::StdRng, v: &mut Val) {
+            match v {
+                Val::Bytes { v: b } => {
+                    let alpha: [u8; 9] = [b'a', b'b', b'A', b'"', b']', 10, 0xff, b'*', b'\\'];
+                    let n = r.random_range(0..5);
+                    *b = (0..n).map(|_| alpha[r.random_range(0..alpha.len())]).collect();
+                }
+                Val::Arr { v: items, .. } => items.iter_mut().for_each(|x| re_bytes(r, x)),
+                Val::Map { v: items, .. } => items.iter_mut().for_each(|x| re_bytes(r, &mut x.v)),
+                _ => {}
+            }
+        }
+        for c in ctxs.iter_mut() {
+            for v in c.vals.iter_mut() {
+                re_bytes(&mut r, v);
+            }
         }
     }
     let w = World::new(specs.clone(), ctxs.clone());
@@ -101,7 +121,7 @@ fn gen_lang(a: &HashMap<String, String>) {
         for &ci in &by_scheme[si] {
             collect_hints(&ctxs[ci - 1], &mut hints);
         }
-        let value_mode = family != "c01" && family != "c13" && family != "c07" && r.random_range(0..6) == 0;
+        let value_mode = family != "c01" && family != "c13" && family != "c07" && family != "c11" && r.random_range(0..6) == 0;
         let mut g = FilterGen {
             r: &mut r,
             spec,
@@ -113,9 +133,49 @@ fn gen_lang(a: &HashMap<String, String>) {
             set_max: geti(a, "setmax", 4) as usize,
             nest_pct: geti(a, "nestpct", 33),
             badname_pct: geti(a, "badname", 0),
+            re_pct: geti(a, "repct", 50),
         };
         let mut max: u16 = 128;
-        let mut ts = if family == "c13" {
+        let mut star: i64 = -1;
+        let mut ts = if family == "c11" {
+            // one pattern comparison, on a field, an index path or every element
+            let lhs: Vec<Tok> = match g.r.random_range(0..5) {
+                0 => vec![Tok::Id { name: "t.u".into() }],
+                1 => vec![Tok::Id { name: "abytes".into() }, Tok::Lb, int_tok(g.r, 0), Tok::Rb],
+                2 => vec![Tok::Id { name: "abytes".into() }, Tok::Lb, Tok::Star, Tok::Rb],
+                3 => vec![Tok::Id { name: "mbytes".into() }, Tok::Lb, Tok::Star, Tok::Rb],
+                _ => vec![Tok::Id { name: "s".into() }],
+            };
+            let each = lhs.len() > 1 && matches!(lhs[2], Tok::Star);
+            let mut t = lhs;
+            let hint = g.hints.iter().filter_map(|v| match v { Val::Bytes { v } => Some(v.clone()), _ => None }).next();
+            match g.r.random_range(0..3) {
+                0 => {
+                    t.push(Tok::Bop { v: "matches".into(), a: g.r.random_range(0..2) });
+                    let d = g.r.random_range(0..4);
+                    let re = gen_re(g.r, d);
+                    let bad = if g.r.random_range(0..15) == 0 {
+                        ["unclosed-group", "unclosed-class", "dangling-star", "trailing-backslash", "bad-repeat"][g.r.random_range(0..5)]
+                    } else { "none" };
+                    t.push(regex_tok(g.r, re, bad));
+                }
+                k => {
+                    t.push(Tok::Bop { v: if k == 1 { "wildcard".into() } else { "strict wildcard".into() }, a: 0 });
+                    t.push(wild_tok(g.r, hint));
+                    if g.r.random_range(0..2) == 0 {
+                        star = g.r.random_range(0..5);
+                    }
+                }
+            }
+            if each {
+                let mut w = vec![Tok::Quant { v: ["any", "all"][g.r.random_range(0..2)].into() }, Tok::Lp];
+                w.extend(t);
+                w.push(Tok::Rp);
+                w
+            } else {
+                t
+            }
+        } else if family == "c13" {
             // nesting shapes: small depths against small limits, and the documented big ones
             let (n, m): (usize, u16) = if g.r.random_range(0..5) != 0 {
                 let n = g.r.random_range(0..10);
@@ -156,7 +216,22 @@ fn gen_lang(a: &HashMap<String, String>) {
         if let Some(f) = spec.funcs.first() {
             uses.push(f.name.clone());
         }
-        let ev = if family == "c07" {
+        lang::set_star_limit(star);
+        let ev = if family == "c11" && k % 8 == 7 {
+            // compiled-size limit: only monotone facts are specified
+            let d = r.random_range(0..4);
+            let re = gen_re(&mut r, d);
+            let tok = regex_tok(&mut r, re, "none");
+            let (pat, txt) = match &tok { Tok::Regex { pat, txt, .. } => (pat.clone(), txt.clone()), _ => unreachable!() };
+            let mut res = Vec::new();
+            for limit in [1usize, 64, 4096, 10 * (1 << 20)] {
+                let mut p = wirefilter::FilterParser::new(&w.schemes[si]);
+                p.regex_set_compiled_size_limit(limit);
+                let ok = std::panic::catch_unwind(std::panic::AssertUnwindSafe(|| p.parse(&format!("s matches {txt}")).is_ok()));
+                res.push(json!({"limit": [0, (limit >> 16) as u32, (limit & 0xffff) as u32], "out": if ok.is_ok() { "ok" } else { "panic" }, "ok": ok.unwrap_or(false)}));
+            }
+            json!({"ev": "relimit", "id": k, "pat": pat, "tok": tok, "res": res})
+        } else if family == "c07" {
             // alias / layout variants of one token sequence, and a structurally different partner
             let mut vars = Vec::new();
             let mut first: Option<wirefilter::FilterAst> = None;
@@ -192,7 +267,7 @@ fn gen_lang(a: &HashMap<String, String>) {
                     *stats.entry(format!("run.{}.{}", run.out, run.res)).or_default() += 1;
                 }
             }
-            json!({"ev": "filter", "id": k, "sch": si + 1, "max": max, "ts": ts, "src": src,
+            json!({"ev": "filter", "id": k, "sch": si + 1, "max": max, "star": star, "ts": ts, "src": src,
                    "ok": o.ok, "out": o.out, "ast": o.ast, "runs": o.runs, "uses": o.uses, "err": o.err})
         };
         serde_json::to_writer(&mut tw, &ev).unwrap();
@@ -263,13 +338,16 @@ fn replay(a: &HashMap<String, String>) -> i32 {
     for v in &vectors {
         n += 1;
         let ev = v["ev"].as_str().unwrap_or("filter");
-        let ts: Vec<Tok> = serde_json::from_value(v["ts"].clone()).expect("tokens");
+        let mut ts: Vec<Tok> = serde_json::from_value(v["ts"].clone()).expect("tokens");
+        fill_txt(&mut ts);
         let src = match v.get("src").and_then(|s| s.as_str()) {
             Some(s) => s.to_string(),
             None => render(&ts),
         };
         let sch = v["sch"].as_u64().unwrap() as usize;
         let max = v["max"].as_u64().unwrap_or(128) as u16;
+        let star = v.get("star").and_then(|s| s.as_i64()).unwrap_or(-1);
+        lang::set_star_limit(star);
         let exp_runs = v["runs"].as_array().cloned().unwrap_or_default();
         let cids: Vec<usize> = exp_runs.iter().map(|r| r["ctx"].as_u64().unwrap() as usize).collect();
         let exp_uses = v["uses"].as_array().cloned().unwrap_or_default();
@@ -368,6 +446,7 @@ fn reobserve(a: &HashMap<String, String>) -> i32 {
                 let src = e["src"].as_str().unwrap().to_string();
                 let sch = e["sch"].as_u64().unwrap() as usize;
                 let max = e["max"].as_u64().unwrap_or(128) as u16;
+                lang::set_star_limit(e.get("star").and_then(|s| s.as_i64()).unwrap_or(-1));
                 let cids: Vec<usize> = e["runs"]
                     .as_array()
                     .map(|r| r.iter().map(|x| x["ctx"].as_u64().unwrap() as usize).collect())
@@ -564,6 +643,7 @@ fn gen_hist(a: &HashMap<String, String>) {
                     set_max: 3,
                     nest_pct: 20,
                     badname_pct: 0,
+                    re_pct: 30,
                 };
                 let ts = g.filter();
                 let fsch = if r.random_range(0..8) == 0 { 3 - sid } else { sid };
